@@ -210,29 +210,70 @@ func vpH_C08_views() {
 	vpReach("end")
 }
 
-// the On* helpers hand the same views to their callbacks
+// the On* helpers hand the same views to their callbacks: every On* helper x every source type
 func vpH_C08_on() {
 	ti := vpChoice(len(vpTypeNames) - 1)
 	x := vpPopulated(ti)
 	cell := vpTypeNames[ti]
-	switch vpChoice(5) {
-	case 0:
-		_ = OnObject(x, func(o *Object) error { vpViewLaws("OnObject/"+cell, x, o, true); return nil })
-	case 1:
-		_ = OnIntransitiveActivity(x, func(o *IntransitiveActivity) error {
-			vpViewLaws("OnIntransitiveActivity/"+cell, x, o, true)
-			return nil
-		})
-	case 2:
-		_ = OnCollection(x, func(o *Collection) error { vpViewLaws("OnCollection/"+cell, x, o, true); return nil })
-	case 3:
-		_ = OnOrderedCollection(x, func(o *OrderedCollection) error {
-			vpViewLaws("OnOrderedCollection/"+cell, x, o, true)
-			return nil
-		})
-	default:
-		_ = OnCollectionPage(x, func(o *CollectionPage) error { vpViewLaws("OnCollectionPage/"+cell, x, o, true); return nil })
-	}
+	called := 0
+	var err error
+	k := vpChoice(14)
+	p := vpMayPanic(func() {
+		switch k {
+		case 0:
+			err = OnObject(x, func(o *Object) error { called++; vpViewLaws("OnObject/"+cell, x, o, true); return nil })
+		case 1:
+			err = OnIntransitiveActivity(x, func(o *IntransitiveActivity) error {
+				called++
+				vpViewLaws("OnIntransitiveActivity/"+cell, x, o, true)
+				return nil
+			})
+		case 2:
+			err = OnCollection(x, func(o *Collection) error { called++; vpViewLaws("OnCollection/"+cell, x, o, true); return nil })
+		case 3:
+			err = OnOrderedCollection(x, func(o *OrderedCollection) error {
+				called++
+				vpViewLaws("OnOrderedCollection/"+cell, x, o, true)
+				return nil
+			})
+		case 4:
+			err = OnCollectionPage(x, func(o *CollectionPage) error { called++; vpViewLaws("OnCollectionPage/"+cell, x, o, true); return nil })
+		case 5:
+			err = OnOrderedCollectionPage(x, func(o *OrderedCollectionPage) error {
+				called++
+				vpViewLaws("OnOrderedCollectionPage/"+cell, x, o, true)
+				return nil
+			})
+		case 6:
+			err = OnActivity(x, func(o *Activity) error { called++; vpViewLaws("OnActivity/"+cell, x, o, true); return nil })
+		case 7:
+			err = OnQuestion(x, func(o *Question) error { called++; vpViewLaws("OnQuestion/"+cell, x, o, true); return nil })
+		case 8:
+			err = OnActor(x, func(o *Actor) error { called++; vpViewLaws("OnActor/"+cell, x, o, true); return nil })
+		case 9:
+			err = OnPlace(x, func(o *Place) error { called++; vpViewLaws("OnPlace/"+cell, x, o, true); return nil })
+		case 10:
+			err = OnProfile(x, func(o *Profile) error { called++; vpViewLaws("OnProfile/"+cell, x, o, true); return nil })
+		case 11:
+			err = OnRelationship(x, func(o *Relationship) error { called++; vpViewLaws("OnRelationship/"+cell, x, o, true); return nil })
+		case 12:
+			err = OnTombstone(x, func(o *Tombstone) error { called++; vpViewLaws("OnTombstone/"+cell, x, o, true); return nil })
+		default:
+			// the collection-interface helper: what the callback receives is a view of x too
+			err = OnCollectionIntf(x, func(c CollectionInterface) error {
+				called++
+				if it, ok := c.(Item); ok && !IsNil(it) {
+					vpViewLaws("OnCollectionIntf/"+cell, x, it, true)
+				} else {
+					vpAssert("OnCollectionIntf/callback-gets-an-item/"+cell, false)
+				}
+				return nil
+			})
+		}
+	})
+	vpAssert("on/no-panic/"+cell, !p)
+	vpAssert("on/called-at-most-once/"+cell, called <= 1)
+	vpAssert("on/refused-or-called/"+cell, p || err != nil || called == 1)
 	vpReach("end")
 }
 
